@@ -18,7 +18,7 @@ pub fn gen(tier: &str, seed: u64, emit: &mut dyn FnMut(String)) {
         emit(format!("CRC {}", hex(&d)));
     }
     // (b) gate: a table installs handlers; a damaged table with a *different* version follows; probes after
-    let nbase = if big { 400 } else { 40 };
+    let nbase = if big { 160 } else { 40 };
     for i in 0..nbase {
         let multi = i % 3 == 2;
         let npids = if multi { rng.range(40, 60) as usize } else { rng.range(1, 4) as usize };
